@@ -407,7 +407,12 @@ def frame_obligations(g):
     scan(tree, "<module>", None)
     also = [n.lineno for n in ast.walk(tree) if isinstance(n, ast.Call) and isinstance(n.func, ast.Name)
             and n.func.id in ("setattr", "delattr")]
-    g.check("node_type_assigned_only_by_the_constructor", not bad and not also, {"stores": sorted(set(bad)), "setattr_calls": also})
+    # (a side condition of the proofs, not a clause of the property: when it cannot be established the proofs that
+    # rely on it are without their footing - undecided, not a violation)
+    if not bad and not also:
+        g.check("node_type_assigned_only_by_the_constructor", True, None)
+    else:
+        g.undecided("node_type_assigned_only_by_the_constructor", f"stores outside the constructor: {sorted(set(bad))}, setattr calls: {also}")
     # 2. _remove_spaces_at_end_of_the_line returns its argument, stores only to .text, does not
     #    rebind or mutate the list spine
     fn = next(n for n in tree.body if isinstance(n, ast.FunctionDef) and n.name == "_remove_spaces_at_end_of_the_line")
@@ -420,8 +425,11 @@ def frame_obligations(g):
     returns = [n for n in ast.walk(fn) if isinstance(n, ast.Return)]
     ok = stores <= {"text"} and not rebinds and not sub_stores and not mut_calls and returns and \
         all(isinstance(r.value, ast.Name) and r.value.id == param for r in returns)
-    g.check("last_pass_returns_its_argument_and_stores_only_text", ok,
-            {"stores": sorted(stores), "rebinds": rebinds, "subscript_stores": sub_stores, "mutating_calls": mut_calls})
+    if ok:
+        g.check("last_pass_returns_its_argument_and_stores_only_text", True, None)
+    else:
+        g.undecided("last_pass_returns_its_argument_and_stores_only_text",
+                    f"stores {sorted(stores)}, rebinds {rebinds}, subscript stores {sub_stores}, mutating calls {mut_calls}")
 
 
 PASSES = [
